@@ -64,6 +64,19 @@ def tasks(tier):
                    before_sleep="call", bs_async=bs, handler=hd, handler_menu=["SLEEP"],
                    max_unknown=None)
         out.append({"family": "async-inject", "cfg": cfg, "entry": e, "bound": inj, "weight": 4})
+    # async on the virtual event loop, with and without attempt_timeout_s: Task.cancel() between
+    # any two loop iterations
+    for e, at, bs in itertools.product(["AsyncRetry.call", "AsyncRetry.execute", "AsyncPolicy.call",
+                                        "AsyncPolicy.execute"], [None, 2], [True, False]):
+        cfg = dict(M=3, alphabet=["ok", "x:T", "r:T"], abort=True, loop=True, attempt_timeout=at,
+                   durs=[0, 3], dur_free=True, inject=["cancel"], sleeper="call", sleeper_async=True,
+                   before_sleep="call", bs_async=bs, max_unknown=None)
+        out.append({"family": "async-loop-cancel", "cfg": cfg, "entry": e, "bound": 1, "weight": 5})
+    # sync attempt timeout (owned executor): cancellation-type exceptions still propagate
+    for e in Q4[:2] + POL[:2]:
+        cfg = dict(M=3, alphabet=ALPHA, abort=True, attempt_timeout=2, durs=[0, 3], dur_free=True,
+                   max_unknown=None)
+        out.append({"family": "abort-cancel-timeout", "cfg": cfg, "entry": e, "bound": 1})
     return out
 
 
@@ -81,6 +94,10 @@ def monitor(w, cfg):
                 polled_since_action = True
                 if r[1] and aborted_at is None:
                     aborted_at = i
+                continue
+            if (k == "op" and r[2] == "cut") or (k == "sleep" and len(r) > 5 and r[5] == "cut"):
+                # an attempt / sleep that was already in progress and got interrupted
+                polled_since_action = False
                 continue
             if k in ("op", "sleep"):
                 # NB an op record is appended when the operation finishes; nothing else can be
@@ -122,6 +139,12 @@ def monitor(w, cfg):
                     v.append(("c13.work-after-abort", f"{k} invoked after abort was requested"))
         end = call.end
         if end is None or end[1] == "closed":
+            continue
+        if cancelled_at is not None and cancel_obj is None:
+            # cancellation delivered by Task.cancel() on the virtual loop
+            if end[1] != "raise" or end[2] != "CancelledError":
+                v.append(("c13.cancel-not-propagated",
+                          f"the task was cancelled but the call ended with {end[:4]}"))
             continue
         if cancelled_at is not None:
             if end[1] != "raise" or end[3] != cancel_obj:
